@@ -94,6 +94,14 @@ Theorem C08_vegas_refuted_at_ceiling : vc_after 1000000 = Some 11%Z /\ vc_after 
 Proof. exact vegas_ceiling_refuted. Qed.
 Print Assumptions C08_vegas_refuted_at_ceiling.
 
+(* What F24 can cost: whenever the clamped candidate is at or above the estimate (every increase, the clamped one at the ceiling included)
+   the smoothing lowers the stored estimate by less than 2^-20 - so the reported integer falls by at most one, and only when the stored
+   estimate was within 2^-20 above an integer (at the ceiling: the maximum itself). *)
+Theorem C08_vegas_increase_costs_little v M newl : VInv v M -> fin newl = true ->
+  (R (v_est v) <= R (fmax one (fmin (of_int (v_max v)) newl)))%R -> (R (v_est v) - / 1048576 <= R (smoothed v newl))%R.
+Proof. exact (vegas_increase_never_costs_much v M newl). Qed.
+Print Assumptions C08_vegas_increase_costs_little.
+
 (* Gradient2 (partial).  The updating branch of a step computes g2_finish est (g2_gradient long' rtt), where long' is the long-term average
    after the sample has been added to it.  In binary64 the new stored estimate is monotone in the gradient, and for a given long-term value
    the gradient max(1/2, min(1, long'/rtt)) is antitone in the RTT (and monotone in long').  That long' itself grows with the RTT - by the
